@@ -23,26 +23,17 @@ theorem gen_shouldConstructFace_eq (idx : Nat) (mask : Option (List Bool)) (p : 
   cases right <;> cases shifted <;> cases mask <;>
     simp [Gen.shouldConstructFace, Tess.shouldConstruct, Tess.maskedOut, shiftOpt]
 
-theorem gen_faceInitGuarded : Gen.faceInitGuarded = true := by decide
-
-/-- both face-integral loops filter by dimensionality (C08: no face orthogonal to the active subspace through either variant) -/
-theorem gen_dimChecks : Gen.nonSymChecksDim = true ∧ Gen.symChecksDim = true := by decide
-
 /-- the skip rule of `compute_face_integrals_sym` = `Tess.symSkip` -/
 theorem gen_symSkip_eq (idx : Nat) (active : List Bool) (f : Face) :
     Gen.symSkip f.right (shiftOpt f.shifted) idx (fun r => active.getD r false) = Tess.symSkip idx active f := by
   rcases f with ⟨left, right, shifted, plane⟩
   cases right <;> cases shifted <;> simp [Gen.symSkip, Tess.symSkip, shiftOpt]
 
-theorem gen_symSkipOnlyWhenUninitialised : Gen.symSkipOnlyWhenUninitialised = true := by decide
-
 /-- the cells `finalize` links a stored face to = `Tess.links`: the left cell, and the right cell iff there is one and the
 face carries no shift -/
 theorem gen_links_eq (f : Face) : Gen.links f.left f.right (shiftOpt f.shifted) = Tess.links f := by
   rcases f with ⟨left, right, shifted, plane⟩
   cases right <;> cases shifted <;> simp [Gen.links, Tess.links, shiftOpt]
-
-theorem gen_offsetsArePrefixSums : Gen.offsetsArePrefixSums = true := by decide
 
 /-- `neighbour_ids` = `Tess.neighbourIds`: the generated closure mapped over the cell's face indices -/
 theorem gen_neighbourIds_eq (v : Voronoi) (c : VCell) :
@@ -59,8 +50,6 @@ theorem gen_neighbourIds_eq (v : Voronoi) (c : VCell) :
     rcases f with ⟨left, right, shifted, plane⟩
     cases right <;> cases shifted <;>
       simp [Gen.neighbourOf, Gen.facePeriodic, Gen.faceBoundary, shiftOpt]
-
-theorem gen_neighbourIdsChain : Gen.neighbourIdsChain = ["self", "face_indices", "iter", "filter_map"] := by decide
 
 /-- non-vacuity: cell 2 of a masked build (`[true, false, true]`) stores its unshifted face towards the unselected cell 1 and
 not the one towards the selected cell 0 -/
